@@ -41,6 +41,7 @@ class Ctx:
         self.replay_dir = os.path.join(ROOT, 'replays', pid)
         os.makedirs(self.replay_dir, exist_ok=True)
         self.violations = []       # (signature, replay path, text)
+        self.violation_counts = {}
         self.known_hits = {}       # finding id -> count
         self.cov = {
             'states': 0, 'transitions': 0, 'traces_validated_against_impl': 0,
@@ -106,8 +107,11 @@ class Ctx:
             self.known_hits.setdefault(f['id'], [0, f])[0] += 1
             return False
         key = json.dumps(sig, sort_keys=True, default=jdefault)
-        if len(self.violations) >= 25 or any(v[0] == key for v in self.violations):
-            self.violations.append((key, None, text)) if len(self.violations) < 200 else None
+        self.violation_counts[key] = self.violation_counts.get(key, 0) + 1
+        if self.violation_counts[key] > 1:
+            return True            # same structural signature already reported
+        if len(self.violations) >= 40:
+            self.violations.append((key, None, text))
             return True
         h = hashlib.sha256((key + text).encode()).hexdigest()[:12]
         path = os.path.join(self.replay_dir, h + '.json')
@@ -129,6 +133,7 @@ class Ctx:
             'assumptions': self.assumptions,
             'wall_s': round(time.time() - self.t0, 2),
             'violations': len([v for v in self.violations if v[1]]),
+            'violation_signatures': self.violation_counts,
             'known_findings_observed': {k: v[0] for k, v in self.known_hits.items()},
             'notes': self.notes,
         }
